@@ -31,6 +31,10 @@ type loaderCfg struct {
 // curShapeOff: 0 = the use calls are the script's top-level statements; 2 = they sit in a loop body two lines further down.
 // The replay alternates between the two shapes; expected call-site lines shift by the same amount.
 var curShapeOff int
+
+// curColOff: 13 = every use call is the loop clause of an empty-bodied for statement of its own (`for ; false; use(..) {}`): the
+// call sits 13 columns further right; 0 otherwise.
+var curColOff int
 var shapeCounter int
 
 func scriptText(status string, calls []string) string {
@@ -51,6 +55,10 @@ func scriptText(status string, calls []string) string {
 	}
 	for i, t := range calls {
 		b.WriteString(strings.Repeat(" ", 2*i))
+		if curColOff == 13 {
+			fmt.Fprintf(&b, "for ; false; use(%q) {}\n", t)
+			continue
+		}
 		fmt.Fprintf(&b, "use(%q)\n", t)
 	}
 	if len(calls) == 0 {
@@ -182,7 +190,7 @@ func chainProblem(e error, want specErrRec) string {
 			return "empty chain"
 		}
 		s0, i0 := siteOf(sites[0])
-		if (ch[0].File != want.Root && ch[0].File != s0) || ch[0].Ln != i0+curShapeOff || ch[0].Col != 2*i0-1 {
+		if (ch[0].File != want.Root && ch[0].File != s0) || ch[0].Ln != i0+curShapeOff || ch[0].Col != 2*i0-1+curColOff {
 			return fmt.Sprintf("cycle root cause must be the closing call site %s:%d:%d, got %v", s0, i0, 2*i0-1, ch[0])
 		}
 		tail = ch[1:]
@@ -192,8 +200,8 @@ func chainProblem(e error, want specErrRec) string {
 	}
 	for k, s := range sites {
 		n, i := siteOf(s)
-		if tail[k].File != n || tail[k].Ln != i+curShapeOff || tail[k].Col != 2*i-1 {
-			return fmt.Sprintf("call site %d must be %s:%d:%d, chain=%v", k, n, i+curShapeOff, 2*i-1, ch)
+		if tail[k].File != n || tail[k].Ln != i+curShapeOff || tail[k].Col != 2*i-1+curColOff {
+			return fmt.Sprintf("call site %d must be %s:%d:%d, chain=%v", k, n, i+curShapeOff, 2*i-1+curColOff, ch)
 		}
 	}
 	return ""
@@ -282,8 +290,11 @@ func replayLoader(args []string) (any, error) {
 		}
 		ordersWanted++
 		shapeCounter++
-		curShapeOff = 2 * (shapeCounter % 2)
-		defer func() { curShapeOff = 0 }()
+		curShapeOff, curColOff = 2*(shapeCounter%2), 0
+		if shapeCounter%5 == 4 { // every fifth set: each use call is the loop clause of an empty-bodied for statement
+			curShapeOff, curColOff = 0, 13
+		}
+		defer func() { curShapeOff, curColOff = 0, 0 }()
 		// insertion order: wanted visit order first, then the broken scripts
 		ins := append([]string{}, v.Order...)
 		for _, n := range keysOf(v.Status) {
